@@ -144,29 +144,29 @@ type SwitchArm struct {
 }
 
 type SwitchTable struct {
-	Stmt *ast.SwitchStmt
+	Stmt   *ast.SwitchStmt // nil for tables read from a map lookup or an if/else-if chain
+	At     token.Pos
+	TagObj types.Object // the variable dispatched on, when it is a plain identifier
 	Arms []*SwitchArm
 }
 
-// switchesOn returns the switch statements in f whose tag is exactly the variable v.
+// switchesOn returns the dispatches in f over exactly the variable v: tagged switches, if/else-if chains comparing v
+// with constants, and lookups of v in a package-level map literal (see dispatchTablesIn).
 func (c *Ctx) switchesOn(f *FuncInfo, v *types.Var) []*SwitchTable {
 	var out []*SwitchTable
-	info := f.Pkg.TypesInfo
-	walkOwn(f.Body(), func(n ast.Node) {
-		sw, ok := n.(*ast.SwitchStmt)
-		if !ok || sw.Tag == nil {
-			return
+	for _, dt := range dispatchTablesIn(f) {
+		if dt.t.TagObj != nil && dt.t.TagObj == types.Object(v) {
+			out = append(out, dt.t)
 		}
-		if objOfIdent(info, sw.Tag) != v {
-			return
-		}
-		out = append(out, buildSwitchTable(info, sw))
-	})
+	}
 	return out
 }
 
 func buildSwitchTable(info *types.Info, sw *ast.SwitchStmt) *SwitchTable {
-	t := &SwitchTable{Stmt: sw}
+	t := &SwitchTable{Stmt: sw, At: sw.Pos()}
+	if sw.Tag != nil {
+		t.TagObj = objOfIdent(info, sw.Tag)
+	}
 	var cur *SwitchArm
 	for _, st := range sw.Body.List {
 		cc := st.(*ast.CaseClause)
@@ -540,4 +540,59 @@ func (c *Ctx) armDelegate(f *FuncInfo, body []ast.Stmt) (*FuncInfo, map[*types.V
 		}
 	}
 	return g, bind
+}
+
+// localDef: when e is a local variable with exactly one assignment in f (an "explaining" local), the expression it
+// was assigned; nil otherwise.
+func localDef(f *FuncInfo, e ast.Expr) ast.Expr {
+	v, ok := objOfIdent(f.Pkg.TypesInfo, e).(*types.Var)
+	if !ok || v.IsField() || v.Pkg() == nil || v.Parent() == v.Pkg().Scope() {
+		return nil
+	}
+	for g := f; g != nil; g = g.Outer {
+		// a variable introduced by `:=` and never assigned again (parameters and re-assigned variables are not explaining locals)
+		if st, _, _ := defOf(g, v); st == nil || st.Tok != token.DEFINE {
+			continue
+		}
+		if d := singleDefExpr(g, v); d != nil {
+			return d
+		}
+	}
+	return nil
+}
+
+// inspectThrough walks e like ast.Inspect and continues into the initialisers of explaining locals it meets.
+func inspectThrough(f *FuncInfo, e ast.Node, visit func(ast.Node) bool) {
+	seen := map[ast.Node]bool{}
+	var walk func(n ast.Node, depth int)
+	walk = func(n ast.Node, depth int) {
+		ast.Inspect(n, func(m ast.Node) bool {
+			if m == nil {
+				return false
+			}
+			if !visit(m) {
+				return false
+			}
+			if id, ok := m.(*ast.Ident); ok && depth < 3 {
+				if d := localDef(f, id); d != nil && !seen[d] {
+					seen[d] = true
+					walk(d, depth+1)
+				}
+			}
+			return true
+		})
+	}
+	walk(e, 0)
+}
+
+// usesObjThrough: e mentions object o, directly or through explaining locals.
+func usesObjThrough(f *FuncInfo, e ast.Node, o types.Object) bool {
+	found := false
+	inspectThrough(f, e, func(m ast.Node) bool {
+		if id, ok := m.(*ast.Ident); ok && f.Pkg.TypesInfo.Uses[id] == o {
+			found = true
+		}
+		return !found
+	})
+	return found
 }
